@@ -25,6 +25,23 @@ var VerifDir = func() string {
 	return "/verif"
 }()
 
+// RepoDir is the repository under test (/repo; VERIF_REPO overrides it for
+// evaluating changes in scratch worktrees without touching /repo).
+var RepoDir = func() string {
+	if d := os.Getenv("VERIF_REPO"); d != "" {
+		return d
+	}
+	return "/repo"
+}()
+
+// OutDir is where evidence and replay files go (VerifDir unless VERIF_OUT_DIR is set).
+var OutDir = func() string {
+	if d := os.Getenv("VERIF_OUT_DIR"); d != "" {
+		return d
+	}
+	return VerifDir
+}()
+
 // Viol is one property violation together with a self-contained replay payload.
 type Viol struct {
 	Prop string      `json:"property"`
@@ -451,13 +468,17 @@ func (r *Run) Finish() int {
 		fmt.Fprintln(os.Stderr, "INFRASTRUCTURE ERROR:", r.infraErr)
 		return 2
 	}
+	if len(samples) == 0 && first != nil {
+		samples = append(samples, map[string]interface{}{"violating_case": first.Case})
+		cov["samples"] = samples
+	}
 	if len(samples) == 0 {
 		fmt.Fprintln(os.Stderr, "INFRASTRUCTURE ERROR: no samples recorded (vacuous run)")
 		return 2
 	}
-	os.MkdirAll(filepath.Join(VerifDir, "evidence"), 0755)
+	os.MkdirAll(filepath.Join(OutDir, "evidence"), 0755)
 	b, _ := json.MarshalIndent(ev, "", " ")
-	evPath := filepath.Join(VerifDir, "evidence", r.Prop+".json")
+	evPath := filepath.Join(OutDir, "evidence", r.Prop+".json")
 	if err := ioutil.WriteFile(evPath, append(b, '\n'), 0644); err != nil {
 		fmt.Fprintln(os.Stderr, "cannot write evidence:", err)
 		return 2
@@ -478,11 +499,11 @@ func (r *Run) Finish() int {
 
 // WriteReplay stores a violation as a self-contained replay file and returns its path.
 func WriteReplay(v Viol) string {
-	os.MkdirAll(filepath.Join(VerifDir, "replays"), 0755)
+	os.MkdirAll(filepath.Join(OutDir, "replays"), 0755)
 	b, _ := json.MarshalIndent(v, "", " ")
 	sum := sha256.Sum256(b)
 	name := fmt.Sprintf("%s-%s-%s.json", v.Prop, sanitize(v.Sig), hex.EncodeToString(sum[:4]))
-	path := filepath.Join(VerifDir, "replays", name)
+	path := filepath.Join(OutDir, "replays", name)
 	ioutil.WriteFile(path, append(b, '\n'), 0644)
 	return path
 }
